@@ -371,10 +371,11 @@ class Gen:
     own item (already in this container), occupied slot, bad index, absent item/key, duplicate type id / key,
     fit already in a solar system / fleet, non-profile damage profile."""
 
-    def __init__(self, world, rnd, malformed):
+    def __init__(self, world, rnd, malformed, fit_ops=True):
         self.w = world
         self.rnd = rnd
         self.malformed = malformed
+        self.fit_ops = fit_ops          # also generate solar-system / fleet / damage-profile calls
 
     def _items(self, cls, pred):
         w = self.w
@@ -410,7 +411,7 @@ class Gen:
         """Returns (op tuple, tag) where tag names the generator branch (goes into the evidence)."""
         rnd, w = self.rnd, self.w
         bad = rnd.random() < self.malformed
-        x = rnd.random()
+        x = rnd.random() * (1.0 if self.fit_ops else 0.94)
         f = rnd.randrange(len(w.fits))
         if x < 0.42:
             r = rnd.randrange(3)
@@ -632,13 +633,18 @@ def exhaustive_rack(rep, depth, where, on_step=None):
     return states, steps, len(seen)
 
 
-def random_histories(rep, rnd, n, length, malformed, where, on_step=None, tag=''):
-    """`n` histories of `length` generated operations over the full pool, each step compared with the model."""
+def random_histories(rep, rnd, n, length, malformed, where, on_step=None, tag='', fit_ops=True):
+    """`n` histories of `length` generated operations over the full pool, each step compared with the model.
+    With `fit_ops` off the fits sit in the solar systems from the start and stay there."""
     lines, impl, meta = [], [], []
     for h in range(n):
         w = World()
-        g = Gen(w, rnd, malformed)
+        g = Gen(w, rnd, malformed, fit_ops)
         pre = w.setup_lines()
+        if not fit_ops:
+            for f in range(len(w.fits)):
+                w.apply(('ssAdd', f % len(w.ss), f))
+                pre.append(World.line(('ssAdd', f % len(w.ss), f)))
         lines += pre
         impl += [None] * len(pre)
         meta += [None] * len(pre)
